@@ -391,8 +391,8 @@ def build_short(sk, d, v):
 @harness(
     prop="C04",
     cubes={"sk": range(NSHORT), "d": range(ND)},
-    bounds={"quick": {"L": 2}, "thorough": {"L": 4}},
-    timeout={"quick": 200, "thorough": 1800},
+    bounds={"quick": {"L": 2}, "thorough": {"L": 3}},
+    timeout={"quick": 200, "thorough": 1200},
     witness=[dict(sk=0, d=2, s="x'"), dict(sk=6, d=2, s="q"), dict(sk=7, d=1, s="*")],
     doc="placeholder substitution reproduces the inline SQL for a symbolic string value (len<=L) on 8 short statements "
         "(criterion, function argument, INSERT row, SET, IN list, CASE, array, nested subquery) x 6 dialects",
